@@ -526,8 +526,12 @@ Theorem C14_cpp_derived_members :
 Proof. split; [exact cpp_float_members_are_c|split; [exact cpp_saturate_spec|split; [exact setZeros_all_spec|exact copyTo_all_exact]]]. Qed.
 Print Assumptions C14_cpp_derived_members.
 
-(* C++: at_offset, offset_bytes, offset_bytes_ceil, align_offset_to<2^k> *)
+(* C++: at_offset, offset_bytes, offset_bytes_ceil, align_offset_to<2^k>; set_offset, offset_misalignment, offset_alings_to(_byte) *)
 Theorem C14_cpp_offset_members :
+  (forall (s : span) (bits n : N),
+    sp_off (set_offset s bits) = bits /\ sp_data (set_offset s bits) = sp_data s /\ sp_size (set_offset s bits) = sp_size s /\
+    (0 < n -> offset_misalignment s n = Some (sp_off s mod n) /\ offset_aligns_to s n = Some (sp_off s mod n =? 0) /\
+              (offset_aligns_to s n = Some true <-> exists q, sp_off s = q * n))) /\
   (forall (s : span) (bits : N),
      span_okb s = true -> (sp_off s + bits <? two64) = true ->
      sp_data (at_offset s bits) = sp_data s /\ sp_size (at_offset s bits) = sp_size s /\
@@ -542,18 +546,23 @@ Theorem C14_cpp_offset_members :
      let n := 2 ^ k in
      sp_off (align_offset_to s n) = (sp_off s + (n - 1)) / n * n /\
      sp_off (align_offset_to s n) mod n = 0 /\ sp_off s <= sp_off (align_offset_to s n) < sp_off s + n).
-Proof. split; [exact at_offset_spec|split; [exact offset_bytes_spec|exact align_offset_to_spec]]. Qed.
+Proof. split; [exact offset_misc_spec|split; [exact at_offset_spec|split; [exact offset_bytes_spec|exact align_offset_to_spec]]]. Qed.
 Print Assumptions C14_cpp_offset_members.
 
-(* Python: Serializer.skip_bits keeps the invariant; Deserializer.skip_bits / pad_to_alignment *)
+(* Python: Serializer.buffer; Serializer.skip_bits keeps the invariant; Deserializer.skip_bits / pad_to_alignment *)
 Theorem C14_py_skip_members :
+  (forall s : ser,
+    (s_off s + 7) / 8 <= blen (s_buf s) ->
+    blen (ser_buffer s) = (s_off s + 7) / 8 /\
+    (forall p, bit (ser_buffer s) p = (p <? 8 * ((s_off s + 7) / 8)) && bit (s_buf s) p) /\
+    (Inv s -> forall p, s_off s <= p -> bit (ser_buffer s) p = false)) /\
   (forall (s : ser) (k : N),
      Inv s -> s_buf (skip_bits s k) = s_buf s /\ s_off (skip_bits s k) = s_off s + k /\ Inv (skip_bits s k)) /\
   (forall (d : des) (k n : N),
      d_buf (des_skip_bits d k) = d_buf d /\ d_off (des_skip_bits d k) = d_off d + k /\
      (0 < n -> exists d', des_pad_to_alignment d n = Some d' /\ d_buf d' = d_buf d /\ d_off d' mod n = 0 /\
                           d_off d <= d_off d' < d_off d + n)).
-Proof. split; [exact skip_bits_spec|exact des_skip_pad_spec]. Qed.
+Proof. split; [exact ser_buffer_spec|split; [exact skip_bits_spec|exact des_skip_pad_spec]]. Qed.
 Print Assumptions C14_py_skip_members.
 
 (* Python: ZeroExtendingBuffer.get_byte / get_unsigned_slice / fork_bytes; Deserializer.fork_bytes is built from it
